@@ -5,7 +5,7 @@ from __future__ import annotations
 import ast
 from typing import Dict, List, Optional, Set, Tuple
 
-from .. import alg, guards
+from .. import alg, guards, inline
 from ..cfg import CFG, Node
 from ..model import AnchorMissing, Repo, attr_chain, norm, walk_no_nested
 
@@ -584,10 +584,11 @@ def attach_pattern_rules(repo: Repo, rep, P: str):
                       f"{rel}:{fn.lineno}")
     if owner:
         conds = _dominating_conditions(g, dom, owner[0].id)
-        extra = [(t, lab) for t, lab in conds
-                 if not ((lab == "true" and t in (pp, f"{pp} is not None"))
-                         or (lab == "false" and f"{pp}.project is not None" in t))]
-        if not extra and any(lab == "true" for _, lab in conds):
+        known = _facts(conds)
+        allowed = {pp, f"{pp} is not None", f"{pp}.project is None"} | guards.facts_text(f"not ({pp} and {pp}.project is not None)") \
+            | guards.facts_text(f"not ({pp} is not None and {pp}.project is not None)")
+        extra = sorted(known - allowed)
+        if not extra and (known & {pp, f"{pp} is not None"}):
             rep.ok(f"{P}.R2", construct, owner[0].text(), "owner set for every real pattern")
         else:
             rep.violation(f"{P}.R2", construct, owner[0].text() + f" under {conds}", "owner is set only under an extra condition",
@@ -842,8 +843,20 @@ def entry_points(repo: Repo, rep, P: str):
     src = norm(ia)
     need = ["self.attach_module(other)", "self.attach_pattern(other)", "return self"]
     missing = [n for n in need if n not in src]
+    # a dispatch table of method names (class constant) looked up with getattr(self, name) also delegates
+    named = set()
+    for n in ast.walk(ia):
+        if isinstance(n, ast.Attribute) and isinstance(n.value, ast.Name) and n.value.id in ("self", "cls"):
+            d = inline.definition_of(repo, proj, proj.file, n)
+            if d is not None:
+                named |= {c.value for c in ast.walk(d) if isinstance(c, ast.Constant) and isinstance(c.value, str)}
+    via_table = {"attach_module", "attach_pattern"} <= named and any(isinstance(c, ast.Call) and norm(c.func) == "getattr" and c.args and norm(c.args[0]) == "self"
+                                                                    for c in ast.walk(ia))
     if not missing:
         rep.ok(f"{P}.R2", f"{rel}:Project.__iadd__", "attach_module / attach_pattern / return self", "+= delegates to the attach operations")
+    elif via_table:
+        rep.inconclusive(f"{P}.R2", f"{rel}:Project.__iadd__", src[:160], "+= dispatches through a table of method names: which operand reaches which "
+                         "attach operation is not decided", f"{rel}:{ia.lineno}")
     else:
         rep.violation(f"{P}.R2", f"{rel}:Project.__iadd__", f"missing: {missing}", "+= no longer delegates to the attach operations",
                       f"{rel}:{ia.lineno}")
